@@ -34,6 +34,10 @@ def compute_val_score(clf, X, y, batch_size, gemini_objective):
     selection_mask = np.arange(X.shape[1])
     if clf.dynamic and y is None:
         selection_mask = clf.get_selection()
+        if len(selection_mask) == 0:
+            # Every feature was eliminated: no affinity can be computed on zero features. The predictions no
+            # longer depend on the samples, so the score does not depend on the affinity: use all features.
+            selection_mask = np.arange(X.shape[1])
     j = 0
     while j < len(X):
         X_batch = X[j:j + batch_size]
